@@ -138,10 +138,16 @@ var maxU256 = new(uint256.Int).SetAllOne()
 // inBubble runs f in a synctest bubble and absorbs the "deadlock" panic that
 // synctest raises when leaked library goroutines remain blocked after f returned.
 func inBubble(f func()) (panicMsg string) {
+	finished := false
+	g := f
+	f = func() { g(); finished = true }
 	defer func() {
 		if r := recover(); r != nil {
 			msg := fmt.Sprint(r)
 			if strings.Contains(msg, "deadlock: all goroutines in bubble are blocked") {
+				if !finished { // not leaked library goroutines: the body itself is stuck for ever
+					panicMsg = "deadlock: the call never returns (every goroutine is blocked for ever)"
+				}
 				return
 			}
 			panicMsg = msg
